@@ -139,6 +139,11 @@ pub struct OpRecord {
     pub superseded_locally: bool,
     /// more than one own write matches this call (concurrent identical deletes): timestamp unknown
     pub ambiguous: bool,
+    /// the call returned, its window holds no write of the issuer's own, and some id's row on the
+    /// issuer is OLDER than the lowest reading the issuer's wall clock had during the call: the
+    /// operation's timestamp (never below the wall clock) beat that row, yet nothing was written.
+    /// Carries (id, lowest wall-clock reading in datacake ms) per such id.
+    pub lost_on_issuer: Vec<(u64, u64)>,
     /// length of the issuer's storage call log when the call was invoked ...
     pub calls_at_invoke: usize,
     /// ... and when it returned, or when the issuer's host was stopped with the call in flight
@@ -190,6 +195,8 @@ pub struct Shared {
     /// per node: the caller of the node's next operation gives up after this many ms (the future
     /// of put/put_many/del/del_many is dropped at whatever await point it has reached)
     pub cancel_next: BTreeMap<u8, (u64, Option<u32>)>,
+    /// per node: number of wall-clock jumps applied so far
+    pub clock_jump_count: BTreeMap<u8, u32>,
 }
 
 pub type SharedRef = Rc<RefCell<Shared>>;
@@ -269,6 +276,7 @@ impl<'a> Cluster<'a> {
             prefilled: Vec::new(),
             ghosts: BTreeMap::new(),
             cancel_next: BTreeMap::new(),
+            clock_jump_count: BTreeMap::new(),
         }));
         if let Some((node, ks, count)) = cfg.prefill.clone() {
             let mut sh = shared.borrow_mut();
@@ -717,6 +725,7 @@ async fn run_op(sh: &SharedRef, node: u8, h: &ReplicatedStoreHandle<SimStorage>,
             view_at_return: view,
             superseded_locally: false,
             ambiguous: false,
+            lost_on_issuer: vec![],
             calls_at_invoke: 0,
             calls_end: None,
         });
@@ -725,6 +734,10 @@ async fn run_op(sh: &SharedRef, node: u8, h: &ReplicatedStoreHandle<SimStorage>,
     if let Some(r) = sh.borrow_mut().ops.iter_mut().find(|r| r.op_id == op_id) {
         r.calls_at_invoke = calls_at_invoke;
     }
+    // the issuer's wall clock (datacake ms) and the number of jumps it has made, at invocation
+    let wall_now = move || datacake_crdt::verif::unix_now(node).map(|d| d.saturating_sub(DATACAKE_EPOCH).as_millis() as i64);
+    let wall_inv = wall_now();
+    let jumps_inv = sh.borrow().clock_jump_count.get(&node).copied().unwrap_or(0);
     let level = level_of(&spec.level);
     let call = async {
         match spec.kind.as_str() {
@@ -816,6 +829,28 @@ async fn run_op(sh: &SharedRef, node: u8, h: &ReplicatedStoreHandle<SimStorage>,
             }
         }
     }
+    // "superseded" needs rows that are not older than the operation. The operation's timestamp is
+    // unknown here, but never below the issuer's wall clock when it was stamped (minus the 4 ms
+    // resolution); with at most one clock jump inside the call the lowest reading of the call is
+    // the reading at invocation, lowered by the jump if it went backwards.
+    let mut lost_on_issuer: Vec<(u64, u64)> = Vec::new();
+    if ts.is_none() && !ambiguous && superseded && !spec.dup {
+        let jumps_ret = s.clock_jump_count.get(&node).copied().unwrap_or(0);
+        if let (Some(wi), Some(wr)) = (wall_inv, wall_now()) {
+            if jumps_ret - jumps_inv <= 1 {
+                let jump = (wr - wi) - (returned as i64 - invoked as i64);
+                let wall_lo = wi + jump.min(0) - 8;
+                let st = own.st.lock();
+                for id in &spec.ids {
+                    if let Some(row) = st.rows.get(&spec.ks).and_then(|m| m.get(id)) {
+                        if (row.ts.datacake_timestamp().as_millis() as i64) < wall_lo {
+                            lost_on_issuer.push((*id, wall_lo.max(0) as u64));
+                        }
+                    }
+                }
+            }
+        }
+    }
     let view: Vec<u8> = s.views.get(&node).map(|v| v.iter().copied().collect()).unwrap_or_default();
     s.log.u64(op_id as u64).str(&result).u64(holders.len() as u64);
     if let Some(r) = s.ops.iter_mut().find(|r| r.op_id == op_id) {
@@ -825,8 +860,9 @@ async fn run_op(sh: &SharedRef, node: u8, h: &ReplicatedStoreHandle<SimStorage>,
         r.holders_at_return = Some(holders.len());
         r.holder_ids_at_return = holders;
         r.view_at_return = view;
-        r.superseded_locally = superseded;
+        r.superseded_locally = superseded && lost_on_issuer.is_empty();
         r.ambiguous = ambiguous;
+        r.lost_on_issuer = lost_on_issuer;
         r.calls_end = Some(own.st.lock().calls.len());
     }
 }
